@@ -233,7 +233,8 @@ def r6(c):
     c.ob('SingleWrite/serialize', ok and any('request' in p for p in q.sem(sw, xs[0]['cs'].args[0]).proj), 'SingleWrite::serialize writes self.request', '', loc_of(sw))
     # API method -> variant
     cnt = 0
-    for fl in FLAVOURS:
+    flavours = [fl for fl in FLAVOURS if P.has(fl + '::read_coils')]
+    for fl in flavours:
         for v in REQUESTS:
             path = '%s::%s' % (fl, API_METHOD[v])
             bodies = P.nested(path)
@@ -252,10 +253,11 @@ def r6(c):
             ok = sorted(built + ctors) == [v]
             c.ob('api/%s/%s' % (fl.rsplit('::', 1)[-1], API_METHOD[v]), ok, '%s::%s queues exactly RequestDetails::%s' % (fl.rsplit('::', 1)[-1], API_METHOD[v], v), 'built %s ctor-args %s' % (built, ctors), loc_of(bodies[0]))
             cnt += 1 if ok else 0
-    c.exact('API methods mapped', cnt, 24)
+    c.exact('API methods mapped', cnt, 8 * len(flavours))
+    c.ob('flavours', len(flavours) >= 2, 'the Channel and CallbackSession flavours exist (FfiChannel with feature ffi)', str(flavours))
     # the helpers that receive the constructor apply it to the limited range
-    for fl, helper, ctor in (('rodbus::client::channel::CallbackSession', 'read_bits', 'rodbus::client::requests::read_bits::ReadBits::new'), ('rodbus::client::channel::CallbackSession', 'read_registers', 'rodbus::client::requests::read_registers::ReadRegisters::new'),
-                             ('rodbus::client::ffi_channel::FfiChannel', 'read_bits', 'rodbus::client::requests::read_bits::ReadBits::new'), ('rodbus::client::ffi_channel::FfiChannel', 'read_registers', 'rodbus::client::requests::read_registers::ReadRegisters::new')):
+    for fl, helper, ctor in [x for x in (('rodbus::client::channel::CallbackSession', 'read_bits', 'rodbus::client::requests::read_bits::ReadBits::new'), ('rodbus::client::channel::CallbackSession', 'read_registers', 'rodbus::client::requests::read_registers::ReadRegisters::new'),
+                             ('rodbus::client::ffi_channel::FfiChannel', 'read_bits', 'rodbus::client::requests::read_bits::ReadBits::new'), ('rodbus::client::ffi_channel::FfiChannel', 'read_registers', 'rodbus::client::requests::read_registers::ReadRegisters::new')) if P.has(x[0] + '::' + x[1])]:
         b = P.fn('%s::%s' % (fl, helper))
         nw = one(b.calls(ctor), ctor)
         rs = q.sem(b, nw.args[0])
